@@ -840,6 +840,34 @@ func drive(env *fw.Env, b fw.Behaviour) *fw.Trace {
 			}
 			if cls != want {
 				note("step %d: %s is at %q, model expects %s at %s", i, a.name, cls, st.A, want)
+				// re-align schedule and code, so that the rest of the schedule (the other processes' steps, the fault, the
+				// retry) still happens at the points the model means:
+				//  - the code is at an operation that a LATER model step of this call names: the code does not have the
+				//    model's operation here (e.g. a guard read that was dropped) - the model step is skipped;
+				//  - otherwise the code has an operation the model does not have here: it runs as an extra step of the call
+				if st.F {
+					a.pending = want
+				}
+				skipStep := false
+				for k := 0; k < 6 && cls != want; k++ {
+					if laterGate(steps, i, cls) {
+						skipStep = true
+						break
+					}
+					ns := stepCall(r, a)
+					if ns != sched.Parked {
+						if ns == sched.Done {
+							r.logRet(a)
+						}
+						skipStep = true
+						break
+					}
+					cls = atClass(r, a.name)
+				}
+				if skipStep {
+					probe()
+					continue
+				}
 			}
 			if st.F {
 				// the storage operation the model names is to fail once; if the code issues it at another point
@@ -949,6 +977,22 @@ func stepCall(r *rig, a *active) string {
 		r.arm("")
 	}
 	return ns
+}
+
+// laterGate: does a later step of the same call of process steps[i].P (up to its next Call) wait at gate class cls?
+func laterGate(steps []step, i int, cls string) bool {
+	for j := i + 1; j < len(steps); j++ {
+		if steps[j].P != steps[i].P {
+			continue
+		}
+		if steps[j].A == "Call" {
+			return false
+		}
+		if gateOf[steps[j].A] == cls {
+			return true
+		}
+	}
+	return false
 }
 
 func atClass(r *rig, name string) string {
@@ -1469,6 +1513,14 @@ func shadowFault(emit bool) mcfg {
 	return c
 }
 
+// retrying: sequential histories in which client c1 (p1, repository) creates / deletes twice and client c2 (p2) claims
+// in between, with any ONE failing storage operation of a create or a delete: the retry of a call that returned an
+// error, after the other client's operations (Del(fails at operation k) ; Create by c2 ; Del again, and the create twin)
+func retrying(emit bool) mcfg {
+	return mcfg{p1: `{"p1"}`, p2: `{"p2"}`, names: `{"n1"}`, kinds: cd, maxOps: 2, maxLook: 0, faults: 1, pre: true, serial: true, fix: true, emit: emit,
+		delFaults: true, creFaults: true, onlyCre: `{"p2"}`, handler: `{}`}
+}
+
 // deviating: schedules of code that has one of the named deviations the present code does not have
 func deviating(c mcfg, dev string) mcfg { c.deviate = dev; return c }
 
@@ -1501,6 +1553,7 @@ func genTable(env *fw.Env) []genJob {
 		{"gen:seq", with(seqCfg(true, true, cdu, 2, 1+looks2f, 0, 1), excusedInvs)}, // two lookups (stale registry cache) in thorough; quick has gen:shadow + extra
 		{"gen:del3", with(del3(true, looks2f), allInvs)},
 		{"gen:opf", with(opFault(true), allInvs)},
+		{"gen:retry", with(retrying(true), allInvs)},
 		{"gen:list", with(listing(true), allInvs)},
 		{"gen:upd", with(updating(true, looks2f), allInvs)}, // quick: the lookups are the driver's probes after every step
 		{"gen:rdf", with(readFault(true), allInvs)},
@@ -1527,7 +1580,8 @@ func genTable(env *fw.Env) []genJob {
 			genJob{"legacy:dev:nx-release", deviating(opFault(true), `{"nxErrRelease", "nxTakenRelease"}`)},
 			genJob{"legacy:dev:fall-through", deviating(shadowFault(true), `{"expiredFallsThrough", "inactiveFallsThrough", "errFallsThrough", "legacyStatusIgnored"}`)},
 			genJob{"legacy:dev:list-heals", deviating(listf, `{"listHeals", "listErrPrunes"}`)},
-			genJob{"legacy:dev:update-heals", deviating(updating(true, 1), `{"updateHeals"}`)})
+			genJob{"legacy:dev:update-heals", deviating(updating(true, 1), `{"updateHeals"}`)},
+			genJob{"legacy:dev:unguarded-delete", deviating(retrying(true), `{"unguardedIndexDelete"}`)})
 	}
 	return t
 }
@@ -1610,7 +1664,7 @@ func main() {
 				if strings.HasPrefix(src, "legacy:") {
 					return 400
 				}
-				if src == "gen:opf" {
+				if src == "gen:opf" || src == "gen:retry" {
 					return 1500
 				}
 				return 600
